@@ -33,6 +33,16 @@ def codes_axioms():
             z3.ForAll([a, i, v], codes_of(z3.Store(a, i, v)) == z3.Store(codes_of(a), i, code_of(v)), patterns=[codes_of(z3.Store(a, i, v))])]
 
 
+# succ4(v, j, k) = j-th shift successor of vertex v in the order-k de Bruijn graph = (v mod 4^(k-1)) * 4 + j.  Kept as a function symbol so that
+# quantified facts about graphs carry no arithmetic; the arithmetic meaning is available on demand (definition triggered by the term).
+succ4 = z3.Function("succ4", I, I, I, I)
+
+
+def succ_axioms():
+    v, j, k = z3.Int("sv_"), z3.Int("sj_"), z3.Int("sk_")
+    return [z3.ForAll([v, j, k], succ4(v, j, k) == (v % ipow(4, k - 1)) * 4 + j, patterns=[succ4(v, j, k)])]
+
+
 RECURSIVE = {}
 
 
@@ -82,6 +92,19 @@ def _def_walkv(ap):
                   z3.Implies(p > 0, ap == z3.If(z3.Or(prev < 0, c < 0), iv(-1), z3.If(acc[prev][c] >= 0, acc[prev][c], iv(-1)))))
 
 
+# flocf(acc, sarr, s0, v0, p) = number of message bits the fast scheme has consumed after the first p characters (while they are a walk)
+flocf = z3.Function("flocf", A2s, A, I, I, I, I)
+
+
+def _def_flocf(ap):
+    acc, sarr, s0, v0, p = ap.children()
+    v = walkv(acc, sarr, s0, v0, p - 1)
+    row = acc[v]
+    d = z3.If(row[0] >= 0, 1, 0) + z3.If(row[1] >= 0, 1, 0) + z3.If(row[2] >= 0, 1, 0) + z3.If(row[3] >= 0, 1, 0)
+    return z3.And(z3.Implies(p <= 0, ap == 0),
+                  z3.Implies(p > 0, ap == flocf(acc, sarr, s0, v0, p - 1) + z3.If(v < 0, 0, z3.If(d == 4, 2, z3.If(d == 2, 1, 0)))))
+
+
 # weights / little-endian mixed-radix value / right Horner value of position-indexed (radix, digit) arrays
 wtf = z3.Function("wtf", A, I, I, I)           # wtf(dg, lo, hi) = product of dg[lo..hi)
 lvf = z3.Function("lvf", A, A, I, I, I)        # lvf(dg, dd, lo, hi) = sum over q in [lo,hi) of dd[q] * wtf(dg, lo, q)
@@ -118,6 +141,7 @@ def _def_rng_at(ap):
 
 RECURSIVE[rng_at.name()] = (rng_at, _def_rng_at)
 RECURSIVE[walkv.name()] = (walkv, _def_walkv)
+RECURSIVE[flocf.name()] = (flocf, _def_flocf)
 RECURSIVE[wtf.name()] = (wtf, _def_wtf)
 RECURSIVE[lvf.name()] = (lvf, _def_lvf)
 RECURSIVE[hvf.name()] = (hvf, _def_hvf)
